@@ -409,6 +409,38 @@ m = { enabled = true }
 tsp = false
 "#;
 
+/// a fourth configuration that does not build on units.toml: quantities whose units have no system (one unified
+/// best list) get their limits from the `all` level, whatever system a conversion aims at
+const STANDALONE_UNITS: &str = r#"
+default_system = "metric"
+[fractions]
+all = { enabled = true, accuracy = 0.001, max_denominator = 2, max_whole = 3 }
+metric = { enabled = true, accuracy = 0.1, max_denominator = 8 }
+imperial = { enabled = true, accuracy = 0.2, max_denominator = 16, max_whole = 100 }
+[[quantity]]
+quantity = "time"
+best = ["s", "min", "h", "d"]
+units = [ { names = ["second"], symbols = ["s"], ratio = 1 }, { names = ["minute"], symbols = ["min"], ratio = 60 }, { names = ["hour"], symbols = ["h"], ratio = 3600 }, { names = ["day"], symbols = ["d"], ratio = 86400 } ]
+[[quantity]]
+quantity = "mass"
+best = ["g", "kg"]
+units = [ { names = ["gram"], symbols = ["g"], ratio = 1 }, { names = ["kilogram"], symbols = ["kg"], ratio = 1000 }, { names = ["stone"], symbols = ["st"], ratio = 6350.29 } ]
+[[quantity]]
+quantity = "volume"
+best = { metric = ["ml", "l"], imperial = ["c", "floz"] }
+[quantity.units]
+metric = [ { names = ["litre"], symbols = ["l"], ratio = 1 }, { names = ["millilitre"], symbols = ["ml"], ratio = 0.001 } ]
+imperial = [ { names = ["cup"], symbols = ["c"], ratio = 0.2366 }, { names = ["fluid ounce"], symbols = ["floz"], ratio = 0.02957 } ]
+[[quantity]]
+quantity = "length"
+best = ["cm", "m"]
+units = [ { names = ["metre"], symbols = ["m"], ratio = 1 }, { names = ["centimetre"], symbols = ["cm"], ratio = 0.01 } ]
+[[quantity]]
+quantity = "temperature"
+best = ["C"]
+units = [ { names = ["celsius"], symbols = ["C"], ratio = 1, difference = 273.15 } ]
+"#;
+
 type FracTable = Vec<(String, (bool, f32, u8, u32))>;
 
 /// (converter, (enabled, accuracy, max denominator, max whole) per unit symbol) for units.toml alone and for
@@ -419,8 +451,8 @@ type FracTable = Vec<(String, (bool, f32, u8, u32))>;
 static CONFIGS: std::sync::LazyLock<Result<Vec<(cooklang::Converter, FracTable)>, String>> = std::sync::LazyLock::new(|| {
     let text = std::fs::read_to_string(repo_dir().join("units.toml")).map_err(|e| format!("cannot read units.toml: {e}"))?;
     let mut out = vec![];
-    for layer in [None, Some(FRACTIONS_LAYER), Some(STRICT_LAYER)] {
-        let mut files: Vec<UnitsFile> = vec![toml::from_str(&text).map_err(|e| format!("units.toml: {e}"))?];
+    for (base, layer) in [(text.as_str(), None), (text.as_str(), Some(FRACTIONS_LAYER)), (text.as_str(), Some(STRICT_LAYER)), (STANDALONE_UNITS, None)] {
+        let mut files: Vec<UnitsFile> = vec![toml::from_str(base).map_err(|e| format!("units file: {e}"))?];
         if let Some(layer) = layer {
             files.push(toml::from_str(layer).map_err(|e| format!("fractions layer: {e}"))?);
         }
@@ -452,7 +484,7 @@ static CONFIGS: std::sync::LazyLock<Result<Vec<(cooklang::Converter, FracTable)>
         };
         let merge = |a: H, b: H| H { enabled: a.enabled.or(b.enabled), accuracy: a.accuracy.or(b.accuracy), max_denominator: a.max_denominator.or(b.max_denominator), max_whole: a.max_whole.or(b.max_whole) };
         let define = |h: H| (h.enabled.unwrap_or(false), h.accuracy.unwrap_or(0.05).clamp(0.0, 1.0), h.max_denominator.unwrap_or(4).clamp(1, 16), h.max_whole.unwrap_or(u32::MAX));
-        let mut texts: Vec<&str> = vec![&text];
+        let mut texts: Vec<&str> = vec![base];
         texts.extend(layer);
         let mut layers: Vec<toml::Value> = vec![];
         for t in &texts {
@@ -493,9 +525,10 @@ static CONFIGS: std::sync::LazyLock<Result<Vec<(cooklang::Converter, FracTable)>
 fn check_caller(c: &CallerCase, st: &mut Stats) -> Verdict {
     let configs = CONFIGS.as_ref().map_err(|e| Violation::new("c12.infrastructure", e.clone()))?;
     // the configuration is picked by the target: units.toml alone, + the layer with explicit limits, + the strict layer under toggles
-    let (conv, table) = &configs[(c.target as usize / 7) % 3];
-    let layered = (c.target as usize / 7) % 3 != 0;
-    st.class_if((c.target as usize / 7) % 3 == 2, "units.toml + strict general levels under bare toggles");
+    let (conv, table) = &configs[(c.target as usize / 7) % 4];
+    let layered = (c.target as usize / 7) % 4 != 0;
+    st.class_if((c.target as usize / 7) % 4 == 2, "units.toml + strict general levels under bare toggles");
+    st.class_if((c.target as usize / 7) % 4 == 3, "standalone units file (units without a system under a unified best list)");
     let units: Vec<_> = conv.all_units().collect();
     let u = units[c.unit as usize % units.len()];
     let keys: Vec<String> = u.names.iter().chain(&u.symbols).chain(&u.aliases).map(|k| k.to_string()).collect();
